@@ -847,7 +847,7 @@ def run(ctx):
                 run_systematic(ctx, drv, 3)
             ctx.extra["bounded_exhaustive"] = ("all sequences of length 2 over a 13-16 letter operation alphabet on 5 base datasets"
                                                + ("; length 3 on the 3-D base dataset" if ctx.thorough() else ""))
-        nseq = ctx.n(900, 9000)
+        nseq = ctx.n(900, 25000)
         maxd = 40 if ctx.thorough() else 12
         for s in range(nseq):
             rng = ctx.rng.fork(s)
